@@ -729,6 +729,24 @@ func checkBurnAccountBlocked(p *Prog, r *Report, kp func(string, string) string,
 					name = strings.Trim(t.Name, `"`)
 				}
 			})
+			if name == "?" {
+				// the names may come from a package-level list of constants that the function walks
+				var list []string
+				okList := false
+				kt.Walk(func(t *Term) {
+					if (t.Op == "gval" || t.Op == "global") && !okList {
+						if i := strings.LastIndex(t.Name, "."); i > 0 {
+							if vs, ok := globalStringListLit(p, Rel(t.Name[:i]), t.Name[i+1:]); ok && len(vs) > 0 {
+								list, okList = vs, true
+							}
+						}
+					}
+				})
+				if okList {
+					unblocked = append(unblocked, list...)
+					continue
+				}
+			}
 			unblocked = append(unblocked, name)
 		}
 		// the exception may also be written as a skip inside the loop (`if addr == NewModuleAddress(gov).String() { continue }`):
